@@ -35,6 +35,11 @@
 (*   cover    coverage.go:108-136, set.go:75-104  coverage format 2        *)
 (*   classdef classdef.go:75-97         class definition format 1          *)
 (*   gpos5    gtab/gpos5.go:72-120      mark-to-ligature arrays            *)
+(*   t2store  cff/t2decode.go:557-581   put/get into the transient array   *)
+(*   t2stack  cff/t2decode.go:525-549   index / roll on the operand stack  *)
+(*   sum      aggregate limits: k records, each within its own limit       *)
+(*            (cmap 12 groups, coverage ranges, name records, kern         *)
+(*            subtables), whose total must stay within the table's limit   *)
 (***************************************************************************)
 EXTENDS Integers, Sequences, FiniteSets, TLC, Json
 
@@ -196,18 +201,60 @@ G5Trouble(r) == \E i \in 0..r.lig-1 : r.comp >= 1 /\
                    \/ ~InB({i}, r.comp))                            \* :117 ligAttach[i]
 
 ---------------------------------------------------------------------------
-Names == {"dir", "cmap", "cmap4", "cmap4seg", "cmap12", "index", "cffpriv", "loca", "simple", "cover", "classdef", "gpos5"}
+(* t2store: the transient array of a charstring has 32 entries and exists  *)
+(* only after the first put (it is allocated on demand).  prior = a put    *)
+(* was executed earlier in the same charstring.                            *)
+T2SDom == [o : {"put", "get"}, prior : BOOLEAN, m : -2..34]
+T2SLen(r) == IF r.prior THEN 32 ELSE 0                 \* len(storage) when the operator starts
+T2SAccept(r) == IF r.o = "put" THEN ~(r.m < 0 \/ r.m >= 32)          \* t2decode.go:562
+                ELSE ~(r.m < 0 \/ r.m >= T2SLen(r))                  \* :576
+\* the index must lie inside the array that exists when it is used (put allocates first)
+T2STrouble(r) == T2SAccept(r) /\ ~InB({r.m}, IF r.o = "put" THEN 32 ELSE T2SLen(r))
+
+(* t2stack: depth operands lie below the arguments of index (n) or roll    *)
+(* (n j).                                                                  *)
+T2KDom == [o : {"index", "roll"}, depth : 0..4, n : -2..6, j : {-1, 0, 1, 5}]
+T2KAccept(r) ==
+  IF r.o = "index"
+    THEN LET idx == IF r.n < 0 THEN 0 ELSE r.n IN ~(r.depth - idx - 1 < 0)        \* :530-535
+    ELSE ~(r.n <= 0 \/ r.n > r.depth)                                           \* :545
+T2KTrouble(r) ==
+  T2KAccept(r) /\
+  IF r.o = "index"
+    THEN LET idx == IF r.n < 0 THEN 0 ELSE r.n IN ~InB({r.depth - idx - 1, r.depth}, r.depth + 1)
+    ELSE ~SliceOK(r.depth - r.n, r.depth, r.depth + 2)
+
+(* sum: k records, each of size pct (percent of the table's limit, so each *)
+(* passes a per-record test); the decoders keep a running total (cmap 12:  *)
+(* size += ...; coverage: ranges must be disjoint and increasing) or the   *)
+(* records share their data (name strings, kern pairs).  The number of     *)
+(* entries created before the decoder returns must not exceed the limit    *)
+(* (cmap12, cover) resp. 64 times the input (name, kern).                  *)
+SumDom == [kind : {"cmap12", "cover", "name", "kern"}, k : {1, 2, 3, 17}, pct : {50, 80, 100}]
+SumDone(r) == IF r.kind \in {"cmap12", "cover"}
+                THEN (IF r.k * r.pct <= 100 THEN r.k ELSE 100 \div r.pct)   \* records accepted before the total fails
+                ELSE r.k
+SumAccept(r) == SumDone(r) = r.k
+SumTrouble(r) == IF r.kind \in {"cmap12", "cover"} THEN SumDone(r) * r.pct > 100
+                 ELSE r.k * r.pct > 64 * (r.pct + r.k)     \* shared data: input = one record's data + k headers
+
+---------------------------------------------------------------------------
+Names == {"dir", "cmap", "cmap4", "cmap4seg", "cmap12", "index", "cffpriv", "loca", "simple", "cover", "classdef", "gpos5",
+          "t2store", "t2stack", "sum"}
 Dom(n) == CASE n = "dir" -> DirDom [] n = "cmap" -> CmapDom [] n = "cmap4" -> C4Dom [] n = "cmap4seg" -> C4SDom
             [] n = "cmap12" -> C12Dom [] n = "index" -> IdxDom [] n = "cffpriv" -> PrivDom [] n = "loca" -> LocaDom
             [] n = "simple" -> SimDom [] n = "cover" -> CovDom [] n = "classdef" -> ClsDom [] n = "gpos5" -> G5Dom
+            [] n = "t2store" -> T2SDom [] n = "t2stack" -> T2KDom [] n = "sum" -> SumDom
 Accept == CASE g = "dir" -> DirAccept(x) [] g = "cmap" -> CmapAccept(x) [] g = "cmap4" -> C4Accept(x)
             [] g = "cmap4seg" -> C4SAccept(x) [] g = "cmap12" -> C12Accept(x) [] g = "index" -> IdxAccept(x)
             [] g = "cffpriv" -> PrivAccept(x) [] g = "loca" -> LocaAccept(x) [] g = "simple" -> SimAccept(x)
             [] g = "cover" -> CovAccept(x) [] g = "classdef" -> ClsAccept(x) [] g = "gpos5" -> G5Accept(x)
+            [] g = "t2store" -> T2SAccept(x) [] g = "t2stack" -> T2KAccept(x) [] g = "sum" -> SumAccept(x)
 Trouble == CASE g = "dir" -> DirTrouble(x) [] g = "cmap" -> CmapTrouble(x) [] g = "cmap4" -> C4Trouble(x)
             [] g = "cmap4seg" -> C4STrouble(x) [] g = "cmap12" -> C12Trouble(x) [] g = "index" -> IdxTrouble(x)
             [] g = "cffpriv" -> PrivTrouble(x) [] g = "loca" -> LocaTrouble(x) [] g = "simple" -> SimTrouble(x)
             [] g = "cover" -> CovTrouble(x) [] g = "classdef" -> ClsTrouble(x) [] g = "gpos5" -> G5Trouble(x)
+            [] g = "t2store" -> T2STrouble(x) [] g = "t2stack" -> T2KTrouble(x) [] g = "sum" -> SumTrouble(x)
 
 Init == g \in Names /\ x \in Dom(g)
 Next == UNCHANGED vars
@@ -226,7 +273,9 @@ Key == CASE g = "dir" -> x.o1 + 3 * x.l1 + 5 * x.o2 + 7 * x.l2 + x.F
          [] g = "cover" -> x.s1 + 3 * x.e1 + 5 * x.i1 + 7 * x.s2 + 11 * x.e2 + 13 * x.i2
          [] g = "classdef" -> x.start + 3 * x.count
          [] g = "gpos5" -> x.lig + 3 * x.mcc + 5 * x.comp
-Sampled == Sample > 0 /\ (g \in {"simple", "gpos5", "classdef"} \/ Key % Sample = 0)
+         [] OTHER -> 0
+\* small guards are replayed completely
+Sampled == Sample > 0 /\ (g \in {"simple", "gpos5", "classdef", "t2store", "t2stack", "sum"} \/ Key % Sample = 0)
 
 \* every hole is printed; the (very many) holes of "dir" are all of one kind -- the uint32 sum
 \* offset + length wraps -- so only every 23rd is replayed and the others are just counted
@@ -238,6 +287,6 @@ Emit == IF Trouble
 
 \* The guards that TLC is expected to prove hole-free at this word size (checked as an
 \* invariant in GuardsProved.cfg; the others are known or suspected holes and are only emitted).
-Proved == {"cmap", "cmap4", "cmap4seg", "cmap12", "index", "loca", "cover", "classdef"}
+Proved == {"cmap", "cmap4", "cmap4seg", "cmap12", "index", "loca", "cover", "classdef", "t2store", "t2stack", "sum"}
 NoHole == g \in Proved => ~Trouble
 =============================================================================
